@@ -51,14 +51,14 @@ theorem rcCodes_drop_one (F : List Nat) (n : Nat) (hlen : F.length = n + 1) :
 /-! ### the edges of `buildGraph` -/
 
 theorem edge_foldAdd {x y : Nat} (es : List (Nat × Nat)) :
-    ∀ (g : Graph), Edge (es.foldl (fun g e => addEdge g e.1 e.2) g) x y → Edge g x y ∨ (x, y) ∈ es := by
+    ∀ (g : Graph), Edge (es.foldl (fun g e => addEdgeOnce g e.1 e.2) g) x y → Edge g x y ∨ (x, y) ∈ es := by
   induction es with
   | nil => intro g h; exact Or.inl h
   | cons e t ih =>
     intro g h
     rw [List.foldl_cons] at h
     rcases ih _ h with h | h
-    · rcases edge_addEdge h with h | ⟨h1, h2⟩
+    · rcases edge_addEdgeOnce h with h | ⟨h1, h2⟩
       · exact Or.inl h
       · right; rw [h1, h2]; exact List.mem_cons_self ..
     · right; exact List.mem_cons_of_mem _ h
